@@ -173,7 +173,7 @@ def hist_to_case(cid, hist, tables, rng, dttl):
     return {"id": cid, "dttl": dttl, "reqs": reqs}, exp
 
 
-def conc_to_case(cid, b, tables):
+def conc_to_case(cid, b, tables, dedup=0):
     """One behaviour of Gen_EntityCacheConc -> a history whose two requests run concurrently under the generated schedule."""
     menu, headers = tables["menu"], tables["headers"]
     reqs = []
@@ -184,7 +184,11 @@ def conc_to_case(cid, b, tables):
             h = headers[hs[i] - 1]
             ex[st["tg"]] = {"lines": [h["line"]] if h["dirs"] else None, "dirs": h["dirs"], "bad": 1 if h["bad"] else 0, "fault": "clean"}
         reqs.append({"q": m["q"], "vars": m.get("vars", ""), "tick": 0, "ex": ex, "tx": [], "nocb": 0})
-    return {"id": cid, "dttl": 2, "conc": 1, "sched": b["sched"], "reqs": reqs}
+    sched = b["sched"]
+    if dedup:
+        # subgraph single flight stays on: exchanges are not scheduled, only the calls on the cache
+        sched = [p for p, k in zip(b["sched"], b["kinds"]) if k != "load"]
+    return {"id": cid, "dttl": 2, "conc": 1, "dedup": dedup, "sched": sched, "reqs": reqs}
 
 
 def conc_signature(b, tables):
@@ -286,6 +290,7 @@ def run_batch(ctx, binary, cases, tag, stats):
         raise lib.Inconclusive("trace validation of batch %s did not run to the end: %s" % (tag, r.error))
     starts = [i for i, x in enumerate(rows) if x["ev"] == "reset"]
     with _LOCK:
+        stats["shared_loads"] = stats.get("shared_loads", 0) + sum(1 for x in rows if x["ev"] == "load" and x.get("shared"))
         totals = [p for p in r.printed if "stored" in p]
         if totals:
             stats["items_stored"] += totals[-1]["stored"]
@@ -462,7 +467,7 @@ def run(ctx):
         conc_keys = conc_keys[:400]
     expected_conc = {}
     for i, k in enumerate(conc_keys):
-        c = conc_to_case("c-%06d" % i, conc[k], tables)
+        c = conc_to_case("c-%06d" % i, conc[k], tables, dedup=1 if i % 4 == 3 else 0)
         cases.append(c)
         expected_conc[c["id"]] = {1: conc[k]["hits1"], 2: conc[k]["hits2"]}
     ctx.log("concurrent histories: %d (of %d distinct behaviours)" % (len(conc_keys), n_conc_total))
@@ -518,13 +523,16 @@ def run(ctx):
         import concurrent.futures
         with concurrent.futures.ThreadPoolExecutor(max_workers=3) as ex:
             outs = list(ex.map(one, batches))
-    conc_agree = conc_total = conc_sched_realised = 0
+    conc_agree = conc_total = conc_sched_realised = conc_dedup = 0
     for rows, results in outs:
         if first_rows is None:
             first_rows = rows
         oc = observed_hits_conc(rows)
         for r in results:
             if r["id"] in expected_conc:
+                if case_by_id[r["id"]]["dedup"]:
+                    conc_dedup += 1
+                    continue
                 conc_total += 1
                 want = expected_conc[r["id"]]
                 got = oc.get(r["id"], {})
@@ -569,7 +577,8 @@ def run(ctx):
         "requests_with_reported_cache_errors": stats["requests_with_cache_errors"],
         "items_stored": stats["items_stored"], "full_hits": stats["full_hits"],
         "hit_prediction_agreement": "%d/%d requests" % (agree, total_pred),
-        "concurrent_histories": conc_total, "concurrent_behaviours_total": n_conc_total,
+        "concurrent_histories": conc_total + conc_dedup, "concurrent_histories_fully_scheduled": conc_total,
+        "concurrent_histories_with_subgraph_single_flight": conc_dedup, "concurrent_behaviours_total": n_conc_total,
         "concurrent_schedules_realised_exactly": conc_sched_realised,
         "concurrent_hit_prediction_agreement": "%d/%d histories" % (conc_agree, conc_total),
         "hit_prediction_mismatches_not_involving_status_300_or_null_entity": unexplained[:10],
